@@ -18,7 +18,7 @@ from vf.props import c03
 PROPERTY_ID = 'C16'
 RULE = ('plaintexts of 0,1,2,15,16,17,31,32,33,64,100,255,256,300,1000 and random lengths x bundles with 0-2 extension blocks '
         'and CRC types x modes COSE_Encrypt0 A256GCM / A128GCM (direct key) and COSE_Encrypt A256GCM with an A256KW-wrapped '
-        'content key x one or two targets per confidentiality block x oracle-built COSE_Encrypt with 1-3 recipients (the usable one first, last, in the middle, none) x fixed and generated IVs x receiver accept on/off; mutations: EVERY single-bit flip of the encoding for '
+        'content key x one or two targets per confidentiality block x oracle-built COSE_Encrypt with 1-3 recipients (the usable one first, last, in the middle, none) x fixed and generated IVs x receiver accept on/off; status reports generated and encrypted by the real agent (administrative record as plaintext); mutations: EVERY single-bit flip of the encoding for '
         'bundles <= 300 octets (sampled above), field-level edits with CRCs recomputed (primary fields, target flags/data, '
         'security source, scope map, protected header, IV, key id, wrapped key, GCM tag octets), wrong and missing keys. '
         'Non-trivial = a bundle carrying a confidentiality block for which oracle and receiver both produced a verdict; '
@@ -31,7 +31,7 @@ ASSUMPTIONS = [
 DECIDING = ['bp.app.bpsec:CoseContext.apply_bcb', 'bp.app.bpsec:CoseContext.verify_bcb', 'bp.app.bpsec:CoseContext.verify_bcb_target',
             'bp.app.bpsec:CoseSecOpCtx.get_external_aad', 'bp.app.bpsec:CoseSecOpCtx.decode_msg']
 REQUIRED_OBS = ['wire_ciphertext_confirmed', 'reencrypt_equal', 'plaintext_recovered', 'empty_plaintexts', 'kw_bundles',
-                'mutants_expect_reject', 'mutants_expect_accept', 'verify_fail_seen', 'wrong_key_runs', 'multi_target_bcbs', 'multi_recipient_recovered']
+                'mutants_expect_reject', 'mutants_expect_accept', 'verify_fail_seen', 'wrong_key_runs', 'multi_target_bcbs', 'multi_recipient_recovered', 'admin_reports_confirmed', 'admin_reports_recovered']
 
 KINDS = ['enc0-256', 'enc0-128', 'enc-kw']
 LENGTHS = [0, 1, 2, 15, 16, 17, 31, 32, 33, 64, 100, 255, 256, 300, 1000]
@@ -252,6 +252,8 @@ def cases(tier, seed):
             out.append(dict(id='multi-roundtrip-%s-%d' % (kind, rep), kind='roundtrip', cose=kind, plen=rng_len(seed, idx), seed=seed * 139 + idx, reps=1, multi=True))
             idx += 1
     out.append(dict(id='recipients', kind='recipients', seed=seed, reps=6 if thorough else 2))
+    for kind in KINDS:
+        out.append(dict(id='admin-%s' % kind, kind='admin', cose=kind, seed=seed * 149 + idx, reps=8 if thorough else 2))
     out.append(dict(id='keys', kind='keys', seed=seed))
     return out
 
@@ -281,7 +283,7 @@ def run_case(case):
     from vf import sec_harness as sh
     obs = dict(wire_ciphertext_confirmed=0, reencrypt_equal=0, plaintext_recovered=0, empty_plaintexts=0, kw_bundles=0, mutants_expect_reject=0,
                mutants_expect_accept=0, verify_fail_seen=0, wrong_key_runs=0, mutants_no_security_block=0, mutants_structural_no_obligation=0,
-               delivered_ciphertext_without_accept=0, distinct_generated_ivs=0, multi_target_bcbs=0, multi_recipient_runs=0, multi_recipient_recovered=0)
+               delivered_ciphertext_without_accept=0, distinct_generated_ivs=0, multi_target_bcbs=0, multi_recipient_runs=0, multi_recipient_recovered=0, admin_reports_confirmed=0, admin_reports_recovered=0)
     rng = random.Random(case['seed'])
     violations = []
     classes = set()
@@ -369,6 +371,60 @@ def run_case(case):
                     for mutant, label in c03.field_mutants(data, rng, 12) + bcb_field_mutants(data, rng):
                         for accept in (True, False):
                             note(judge(mutant, cose, plain, obs, label, accept=accept), mutant + bytes([accept]), label)
+        elif kind == 'admin':
+            # status reports generated by an agent that encrypts what it sources: the administrative record is the plaintext
+            import re
+            from vf.world.sim import Sim
+            from bp import config as bp_config
+            cose = case['cose']
+            for rep in range(case['reps']):
+                sim = Sim(0, 'eager')
+                src = sh.source_node(sim, cose, sec_type='bcb')
+                src.cfg.rx_route_table.append(bp_config.RxRouteItem(eid_pattern=re.compile(r'dtn://src-node/.*'), action='deliver'))
+                subject = c03.base_bundle(rng, rng.choice([0, 10, 100]), crc=rng.choice([0, 1, 2]), seq=rep + 1)
+                subject['primary'].update(dest='dtn://src-node/app', src='dtn://other/x', report_to=sh.DST_NODE,
+                                          flags=bpv7.FLAG_REQ_RECEPTION | bpv7.FLAG_REQ_DELIVERY | rng.choice([0, bpv7.FLAG_REQ_STATUS_TIME]))
+                src.recv(bpv7.encode(subject))
+                sim.settle(5000)
+                outs = src.cl.datas()
+                problems = []
+                if len(outs) != 1:
+                    problems.append(('wire', 'expected one status report bundle from the source, got %d' % len(outs)))
+                    note(problems, b'', 'admin %s' % cose)
+                    continue
+                data = outs[0]
+                dec, _p = bpv7.decode(data)
+                wire_pay = bpv7.payload_of(dec)['data']
+                bcbs = [blk for blk in dec['blocks'] if blk['type'] == 12]
+                plain = None
+                if not (dec['primary']['flags'] & bpv7.FLAG_ADMIN) or len(bcbs) != 1:
+                    problems.append(('wire', 'status report left the source with %d confidentiality blocks (flags 0x%x)' % (len(bcbs), dec['primary']['flags'])))
+                else:
+                    try:
+                        plain = cb.verify_block(dec, bcbs[0], oracle_keys(cose), 'bcb').get(1)
+                        rec = bpv7.decode_admin_record(plain)
+                        if rec['record_type'] != 1 or rec['subj_src'] != 'dtn://other/x':
+                            problems.append(('wire', 'decrypted payload is not the status report about the subject: %r' % (rec,)))
+                        else:
+                            obs['admin_reports_confirmed'] += 1
+                    except (cb.SecError, bpv7.DecodeError) as err:
+                        problems.append(('wire', 'the payload of the status report on the wire does not decrypt independently to an administrative record: %s' % err))
+                    try:
+                        bpv7.decode_admin_record(wire_pay)
+                        problems.append(('plaintext-on-wire', 'the status report is readable on the wire although a confidentiality block targets it'))
+                    except bpv7.DecodeError:
+                        pass
+                if plain is not None:
+                    for accept in (True, False):
+                        dst, log, err, loop_errs = receive(data, cose, 'all', accept)
+                        seen = [rec for rec in dst.observed]
+                        if err is not None or loop_errs:
+                            problems.append(('raised', 'receiving the encrypted status report raised %s' % (err or loop_errs[0].exc)))
+                        elif accept and not any(rec['payload'] == plain for rec in seen):
+                            problems.append(('not-recovered', 'the receiver with the key did not recover the administrative record (log %s, seen %d)' % (log[:2], len(seen))))
+                        elif accept:
+                            obs['admin_reports_recovered'] += 1
+                note(problems, data, 'admin %s' % cose)
         elif kind == 'recipients':
             # COSE_Encrypt with several recipients: any one usable recipient is enough, wherever it stands in the list
             layouts = [[(b'kk', sh.KEK)], [(b'kk', sh.KEK), (b'nobody', None)], [(b'nobody', None), (b'kk', sh.KEK)],
